@@ -361,10 +361,10 @@ func rulesPersist(c *Ctx) {
 				c.ok("I4", fk+"→Join→replicated", j.Pos(), "view refresh dominates EventReplicated after Join")
 			}
 		default:
-			if hit, tr := findPath(f, start, updVia, successReturn, nil); hit != nil {
-				c.bad("I4", fk+"→Join→ack", hit.Pos(), "a successful return is reachable after Join without refreshing the view", c.trailStr(tr)...)
+			if ok, hit, tr := c.ackAfter(j, start, kUpd, 0); !ok {
+				c.bad("I4", fk+"→Join→ack", hit.Pos(), "a successful return is reachable after Join without refreshing the view (neither here nor in the callers of this helper)", c.trailStr(tr)...)
 			} else {
-				c.ok("I4", fk+"→Join→ack", j.Pos(), "every path from Join to a successful return refreshes the view")
+				c.ok("I4", fk+"→Join→ack", j.Pos(), "every path from Join to a successful return refreshes the view (in this function or, for a helper, in each of its callers)")
 			}
 		}
 		if hasEmitR {
@@ -573,4 +573,42 @@ func reaches(from, to *ssa.BasicBlock) bool {
 // sameLoop: block x belongs to the natural loop headed by hdr.
 func sameLoop(hdr, x *ssa.BasicBlock) bool {
 	return dominates(hdr, x) && (x == hdr || reaches(x, hdr))
+}
+
+// ackAfter: every path from the site to a successful return passes a K-site, in the site's
+// function or — when that function is a helper with static repo callers — in every caller
+// after the call returns.
+func (c *Ctx) ackAfter(site ssa.CallInstruction, start startPt, k *siteKind, depth int) (bool, ssa.Instruction, []token.Pos) {
+	f := site.Parent()
+	hit, tr := findPath(f, start, func(in ssa.Instruction) bool { return c.isSite(k, in) }, successReturn, nil)
+	if hit == nil {
+		return true, nil, nil
+	}
+	if depth >= 3 {
+		return false, hit, tr
+	}
+	var callers []ssa.CallInstruction
+	for _, g := range c.RepoFns {
+		if c.isTestFile(g.Pos()) {
+			continue
+		}
+		eachCall(g, func(call ssa.CallInstruction) {
+			if _, isGo := call.(*ssa.Go); !isGo && call.Common().StaticCallee() == f {
+				callers = append(callers, call)
+			}
+		})
+	}
+	if len(callers) == 0 {
+		return false, hit, tr
+	}
+	for _, cs := range callers {
+		st, _, tested := okStart(cs)
+		if !tested {
+			st = after(cs)
+		}
+		if ok, h2, t2 := c.ackAfter(cs, st, k, depth+1); !ok {
+			return false, h2, t2
+		}
+	}
+	return true, nil, nil
 }
